@@ -61,6 +61,8 @@ def main():
         for f in os.listdir(os.path.join(VERIF, "replays")):
             if f.endswith(".json"):
                 os.unlink(os.path.join(VERIF, "replays", f))
+    if os.environ.get("SEEDED_NO_RECORD"):
+        return
     det = meta.setdefault("detection", {})
     for c, r in results.items():
         det["%s/%s" % (c, tier)] = r
